@@ -115,6 +115,11 @@ def gen_sh_model_only(rng, tier):
                 # two register arguments exchanged + stack loads
                 dsts = ["r%d.%d" % (rt, pool[1]), "r%d.%d" % (rt, pool[0])] + ["-"] * (nreg - 2)
                 ops.append(sh_line(env, [t] * (nreg + nst), dsts + ["r%d.%d" % (rt, r) for r in pool[4:4 + nst]], ff, sa, cc))
+    # requested SA register that is no allocable GP register: the stack pointer, a preserved frame pointer, ids beyond the register file
+    for env, cc, t, rt, nreg, spid, fpid in (("x64l", 0, 40, 6, 6, 4, 5), ("x86l", 7, 38, 5, 3, 4, 5), ("a64l", 0, 40, 6, 8, 31, 29)):
+        for ff, sa in ((0x2000, spid), (0, spid), (0x2001, fpid), (0x2000, 40), (0x2000, 200)):
+            ops.append(sh_line(env, [t] * (nreg + 1), ["-"] * nreg + ["r%d.%d" % (rt, 3)], ff, str(sa), cc))
+            ops.append(sh_line(env, [t] * (nreg + 1), ["r%d.%d" % (rt, 3)] + ["-"] * nreg, ff, str(sa), cc))
     # destination register = source register with a different type (conversion in place)
     for env in ("x64l", "a64l"):
         for st, dt in ((42, 43), (42, 80), (43, 79), (42, 70), (59, 80), (69, 80), (79, 80), (79, 79), (42, 42), (43, 42)):
